@@ -63,6 +63,11 @@ class C16(SimpleProperty):
             rows.append(row)
         flags = {"s": rng.random() < 0.35, "p": rng.random() < 0.4, "amb": rng.random() < 0.3 and meth in ("compress", "expand")}
         case = {"records": recs, "delim": delim, "mode": mode, "meth": meth, "col": col, "rows": rows, **flags}
+        if rng.random() < 0.4:
+            # a long-lived converter: built from a part of the records, used for the same bulk operation once, then
+            # extended (new records, synonyms acquired by merge) to hold `recs`
+            first, later = gen.split_history(rng, recs)
+            case["hist"] = {"first": first, "later": [[k, r] for k, r in later]}
         if mode == "pd":
             case["target"] = rng.choice([col, col, (col + 1) % ncol, ncol])
         else:
@@ -76,7 +81,13 @@ class C16(SimpleProperty):
         import pandas as pd
         from curies import Converter
 
-        conv = Converter([common.dec_record(r) for r in case["records"]], delimiter=case["delim"])
+        if case.get("hist"):
+            conv = Converter([common.dec_record(r) for r in case["hist"]["first"]], delimiter=case["delim"])
+            self._warm(conv, case)
+            for kind, r in case["hist"]["later"]:
+                conv.add_record(common.dec_record(r), merge=(kind == "merge"))
+        else:
+            conv = Converter([common.dec_record(r) for r in case["records"]], delimiter=case["delim"])
         f = scalar(conv, case["meth"], case["amb"], case["s"], case["p"])
         out = {}
         # the scalar results of the implementation itself, cell by cell
@@ -127,6 +138,40 @@ class C16(SimpleProperty):
                     os.unlink(os.path.join(d, x))
                 os.rmdir(d)
         return out
+
+    def _warm(self, conv, case):
+        """Use the not yet complete converter for the same bulk operation (on scratch copies of the table)."""
+        import pandas as pd
+
+        kw = dict(strict=case["s"], passthrough=case["p"])
+        try:
+            if case["mode"] == "pd":
+                df = pd.DataFrame(case["rows"], columns=list(range(len(case["rows"][0]))), dtype=object)
+                m = getattr(conv, "pd_" + case["meth"])
+                if case["meth"] in ("compress", "expand"):
+                    m(df, case["col"], ambiguous=case["amb"], **kw)
+                else:
+                    m(df, column=case["col"], **kw)
+            else:
+                d = tempfile.mkdtemp(prefix="c16w-")
+                path = os.path.join(d, "w.tsv")
+                try:
+                    with open(path, "w", newline="") as fh:
+                        csv.writer(fh, delimiter=case["sep"] or "\t").writerows(case["rows"])
+                    getattr(conv, "file_" + case["meth"])(path, case["col"], sep=case["sep"], header=case["header"],
+                                                          ambiguous=case["amb"], **kw)
+                finally:
+                    for x in os.listdir(d):
+                        os.unlink(os.path.join(d, x))
+                    os.rmdir(d)
+        except Exception:  # noqa: BLE001  (the incomplete converter may well reject cells)
+            pass
+        # and once leniently, so that every cell has been seen whatever the flags
+        try:
+            for row in case["rows"]:
+                scalar(conv, case["meth"], case["amb"], False, False)(row[case["col"]])
+        except Exception:  # noqa: BLE001
+            pass
 
     def request(self, case, impl):
         req = {"k": "bulk", "records": case["records"], "delim": cps(case["delim"]), "meth": case["meth"], "amb": case["amb"],
@@ -210,6 +255,10 @@ class C16(SimpleProperty):
         flags = f"strict={case['s']}, passthrough={case['p']}, ambiguous={case['amb']}"
         recs = "; ".join(common.show_record(r) for r in case["records"])
         head = f"Converter([{recs}], delimiter={case['delim']!r})"
+        if case.get("hist"):
+            head += (" reached by: Converter([" + "; ".join(common.show_record(r) for r in case["hist"]["first"]) + "]), the same "
+                     "bulk call once, then " + ", ".join(f"add_record({common.show_record(r)}, merge={k == 'merge'})"
+                                                          for k, r in case["hist"]["later"]))
         if case["mode"] == "pd":
             return [head, f"pd_{case['meth']}(DataFrame({case['rows']!r}), column={case['col']}, target_column={case['target']}, {flags})",
                     f"-> {impl.get('rows', impl.get('e'))!r}", f"scalar results: {impl['scalar']!r}"]
@@ -223,6 +272,10 @@ class C16(SimpleProperty):
         for i in range(len(rows) - 1, lo - 1, -1):
             if len(rows) - lo > 1:
                 yield {**case, "rows": rows[:i] + rows[i + 1:]}
+        if case.get("hist"):
+            # the history and the records belong together: either drop the history, or keep both as they are
+            yield {k: v for k, v in case.items() if k != "hist"}
+            return
         for i in range(len(case["records"])):
             if len(case["records"]) > 1:
                 yield {**case, "records": case["records"][:i] + case["records"][i + 1:]}
